@@ -408,6 +408,7 @@ class Parser:
                 self.pop_token()
                 return None
 
+            depth: int = self.get_stack_length()
             while type(self.peek(0)) not in [Comma, Colon, RCurly]:
                 if self.peek(0) is None:
                     raise InsufficientTokens()
@@ -415,7 +416,7 @@ class Parser:
 
             elements: List[Element] = []
 
-            while not self.is_stack_empty():
+            while self.get_stack_length() > depth:
                 con = self.pop_stack()
                 if not isinstance(con, Element):
                     raise TypeError(f"Expected an Element instead of {con=}")
